@@ -111,4 +111,20 @@ theorem reissue_freshOrd_undercounts {s s' : St} {o : PickOutcome} {d : Nat} {ps
     rw [q.entropy, q.spawned] at this
     exact this
 
+/-! ### before 17a0342: the counter was always restored as `cstep + #records` -/
+
+/-- the restart before 17a0342: `set_rgen()` ignores what `write_toml` knew about the counter -/
+def restoreAsIs17 (im : Image) (n workers tsteps : Nat) (occ : List (List Int)) (ensEng : List (List Nat))
+    (weightOf : Nat → List Rat) : Except Err St :=
+  restore { im with spawnedRec := none } n workers tsteps occ ensEng weightOf
+
+/-- as-is, for every image: the restored counter is `cstep + #records`, which is below the true
+    counter as soon as a record was dropped (or re-issued under a fresh ordinal) before the stop -/
+theorem restoreAsIs17_counter {im : Image} {n workers tsteps : Nat} {occ : List (List Int)}
+    {ensEng : List (List Nat)} {weightOf : Nat → List Rat} {s' : St}
+    (h : restoreAsIs17 im n workers tsteps occ ensEng weightOf = .ok s') :
+    s'.spawned = im.cstep + im.locked.length := by
+  unfold restoreAsIs17 at h
+  exact (restore_spec h).2.2.1
+
 end Infretis.Repex
